@@ -161,3 +161,83 @@ Proof.
     destruct m as [v' r s e l|]; [|exact H]. destruct H as [_ [H1 H2]].
     exists rs, re, last. split; [exact Hsr|lia].
 Qed.
+
+(* ---------- fully held versions: tiling and exactness ---------- *)
+Definition msg_range (m : msg) : Z * Z := match m with MFull _ _ s e _ => (s, e) | MEmpty lo hi => (lo, hi) end.
+Definition msg_rows (m : msg) : list row := match m with MFull _ r _ _ _ => r | MEmpty _ _ => [] end.
+Definition msg_of_chunk (v last : Z) (ch : chunk) : msg :=
+  MFull v (map (fun g => (c_seq g, c_id g)) (fst ch)) (fst (snd ch)) (snd (snd ch)) last.
+
+Lemma tiles_whole a last rs x y : tiles a last rs -> In (x, y) rs -> x = a -> y = last -> rs = [(a, last)].
+Proof.
+  intros Ht. revert x y. induction Ht as [a b Hab|a x0 last rs Hax Ht IH]; intros x y Hin Hx Hy.
+  - reflexivity.
+  - exfalso. destruct (tiles_bounds _ _ _ Ht) as [Hle Hall]. destruct Hin as [Hin|Hin].
+    + injection Hin as _ Hy'. subst. lia.
+    + destruct (Hall _ Hin) as [H1 _]. cbn in H1. lia.
+Qed.
+
+(* a fully held version with live changes is answered with changesets whose ranges tile
+   0..=last_seq and which carry exactly its live changes, in order *)
+Theorem live_version_tiles_exact rz v rows :
+  rows <> [] ->
+  wf_input (map (fun r => mkChg (fst r) rz (snd r)) rows) 0 (maxseq rows) = true ->
+  let ms := send_chunks rz v (maxseq rows) rows 0 (maxseq rows) in
+  tiles 0 (maxseq rows) (map msg_range ms) /\
+  concat (map msg_rows ms) = rows /\
+  Forall (fun m => match m with MFull v' _ _ _ l => v' = v /\ l = maxseq rows | MEmpty _ _ => False end) ms.
+Proof.
+  intros Hne Hwf. cbv zeta. unfold send_chunks. cbv zeta.
+  set (last := maxseq rows) in *.
+  set (cs := map (fun r : Z * Z => mkChg (fst r) rz (snd r)) rows) in *.
+  match goal with |- context [run ?l ?c] => destruct (run l c) as [out stf] eqn:Hrun end.
+  assert (Hlen : (length cs < length (repeat max_changes_bytes_per_message (S (length rows))))%nat)
+    by (unfold cs; rewrite map_length, repeat_length; lia).
+  destruct (run_tiles cs 0 last _ out stf Hwf Hlen Hrun) as (_ & Htiles & Hcat & _).
+  cbn [fst].
+  assert (Hno : forall ch, In ch out -> ch <> ([], (0, last))).
+  { intros ch Hch Heq. subst ch.
+    pose proof (tiles_whole _ _ _ 0 last Htiles (in_map snd _ _ Hch) eq_refl eq_refl) as Hone.
+    destruct out as [|[c0 r0] [|o2 out']]; try discriminate Hone.
+    destruct Hch as [Hch|[]]. injection Hch as -> _. cbn in Hcat.
+    unfold cs in Hcat. destruct rows; [congruence|discriminate Hcat]. }
+  assert (Hgo : forall l, (forall ch, In ch l -> ch <> ([], (0, last))) ->
+     (fix go (l : list chunk) : list msg :=
+        match l with
+        | [] => []
+        | (c, (x, y)) :: t =>
+          match c with
+          | [] => if (x =? 0) && (y =? last) then [] else MFull v [] x y last :: go t
+          | _ => MFull v (map (fun g => (c_seq g, c_id g)) c) x y last :: go t
+          end
+        end) l = map (msg_of_chunk v last) l).
+  { induction l as [|[c [x y]] t IH]; intros Hl; [reflexivity|].
+    rewrite IH by (intros ch Hch; apply Hl; right; exact Hch).
+    destruct c as [|g c'].
+    - destruct ((x =? 0) && (y =? last)) eqn:E; [|reflexivity].
+      apply andb_true_iff in E. destruct E as [E1 E2]. apply Z.eqb_eq in E1, E2. subst.
+      exfalso. apply (Hl ([], (0, last))); [left; reflexivity|reflexivity].
+    - reflexivity. }
+  rewrite (Hgo out Hno). split; [|split].
+  - rewrite map_map. unfold msg_of_chunk. cbn [msg_range].
+    replace (map (fun x : chunk => (fst (snd x), snd (snd x))) out) with (map snd out); [exact Htiles|].
+    apply map_ext. intros [c [x y]]. reflexivity.
+  - rewrite map_map. unfold msg_of_chunk. cbn [msg_rows].
+    assert (Hc : forall l : list chunk, concat (map (fun x : chunk => map (fun g => (c_seq g, c_id g)) (fst x)) l)
+                                       = map (fun g => (c_seq g, c_id g)) (concat (map fst l))).
+    { induction l as [|h t IHl]; [reflexivity|]. cbn [map concat]. rewrite map_app, IHl. reflexivity. }
+    rewrite Hc, Hcat. unfold cs. rewrite map_map. cbn [c_seq c_id]. rewrite <- (map_id rows) at 2. apply map_ext. intros [a b]. reflexivity.
+  - apply Forall_forall. intros m Hm. apply in_map_iff in Hm. destruct Hm as [ch [<- _]]. cbn. split; reflexivity.
+Qed.
+
+(* ... and those changesets are part of the answer to every Full need that covers the version *)
+Theorem full_need_answers_live_version sv s e v rows m :
+  vget v (sv_live sv) = Some rows -> s <= v <= e ->
+  In m (send_chunks (sv_rowsize sv) v (maxseq rows) rows 0 (maxseq rows)) ->
+  In m (handle_need_full sv s e).
+Proof.
+  intros Hl Hv Hm. unfold handle_need_full. cbv zeta. apply in_or_app. left.
+  apply in_flat_map. exists v. split.
+  - apply -> in_rev. apply filter_In. split; [apply In_zrange; exact Hv|]. rewrite Hl. reflexivity.
+  - rewrite Hl. exact Hm.
+Qed.
